@@ -20,6 +20,12 @@ CHECKS = {
         note="Trusts gcc 12 for implementation-defined behaviour and the model in vlib/model_expr.py (gcc-validated each run); UB and gcc-diagnosed expressions are excluded.",
         ref="2 C02",
     ),
+    "C04": dict(
+        technique="property-based testing: Hypothesis multi-directory include trees vs reference search-rule model, differential against gcc -E",
+        text="Generated-input search over multi-directory trees with same-named headers, quote/angle/computed includes, guards and #pragma once, crossed with random -I/-isystem orders, -D sets and -include, fed through codebasin's own argument parser. Expected per-line platform sets of every code-base file come from a memo-free model of the documented search rules; gcc -E with the same flags validates the model on marker lines. Bounded exploration.",
+        note="Trusts gcc 12 for the search order and the model in vlib/pp_ast.py (gcc-validated each run); cases with a reached missing header or any gcc diagnostic are excluded.",
+        ref="2 C04",
+    ),
     "C07": dict(
         technique="property-based testing: exhaustive table enumeration + Hypothesis tables vs exact-rational reference model and metamorphic relations",
         text="Generated-input search: every table over 3 platforms with counts from a small set (complete enumeration) and Hypothesis tables over <=8 platforms are compared with exact rational formulas, plus symmetry/renaming/order/scaling relations and the printed metric lines. Finds formula deviations on any explored table; says nothing beyond the explored sizes.",
